@@ -47,7 +47,7 @@ func realMain() {
 		c.Finish("replay")
 	}
 	rng := hx.NewRNG(c.Seed)
-	nShort, nPebble, nBoundary, lenShort, lenB := 4, 1, 2, 10, 7
+	nShort, nPebble, nBoundary, lenShort, lenB := 3, 1, 1, 10, 7
 	if c.Thorough() {
 		nShort, nPebble, nBoundary, lenShort, lenB = 60, 20, 25, 14, 10
 	}
